@@ -48,6 +48,7 @@ Mon0 == [ np     |-> 0,       \* probes created so far
           ht     |-> <<>>,    \* handle -> virtual time of the subscription
           pat    |-> <<>>,    \* probe -> virtual time of each of its notifications
           t9     |-> [init |-> FALSE],   \* C09: state of the timed reference automaton of the (single) subscription
+          tsince |-> -1,      \* C16: virtual time at which the (first) subscriber saw its terminal (-1: not yet)
           runT   |-> <<>>,    \* virtual times at which the executor ran to idle ("runall")
           g      |-> <<>>,    \* global timeline <<a, t, v>> of the notifications sent into the hot inputs
           unsubd |-> <<>>,    \* handle -> unsubscribe() has returned (or it was torn down by its composite)
@@ -246,6 +247,16 @@ T9Step(z0, s, now) ==
            IF z.op = "buffer_count_time" /\ Len(b1) >= z.a THEN Out9([z EXCEPT !.buf = <<>>], "N", L(b1)) ELSE [z EXCEPT !.buf = b1]
          ELSE Out9((IF z.buf # <<>> THEN Out9([z EXCEPT !.buf = <<>>], "N", L(z.buf)) ELSE z), "C", U)
 
+(* --- C16: how many items an iterator source has to be pulled for, at most --- *)
+RECURSIVE PullSrc(_)
+(* the from_iter source at the bottom of a single-input chain (0 if there is none) *)
+PullSrc(x) == IF x <= 0 THEN 0 ELSE IF Op(x) = "from_iter" THEN x ELSE IF Op(x) \in RefUnaryOps THEN PullSrc(S1(x)) ELSE 0
+RECURSIVE MinPulls(_, _)
+(* the shortest prefix of the iterator after which the documented output of the chain has terminated *)
+MinPulls(x, k) ==
+  IF k >= Len(PL(PullSrc(x))) THEN Len(PL(PullSrc(x)))
+  ELSE IF Ref(x, <<>>, 0, 0, {CutName(k)}).term # "" THEN k ELSE MinPulls(x, k + 1)
+
 (* --- C08: time and async sources emit exactly what and when they promise --- *)
 TimeSources == {"interval", "timer", "from_future", "from_stream"}
 C08Check(m, o) ==
@@ -390,7 +401,15 @@ MonStep(m0, step, C) ==
       got9 == [i \in 1..Len(o.log) |-> <<o.log[i].t, o.log[i].v>>]
       r10b == [Flag(r10, is9 /\ o.fault = "" /\ GetI(m.hend, 1) = 0 /\ s.k # "unsub"
                          /\ (got9 # z9.out \/ \E i \in 1..Len(o.log) : o.log[i].at # r10.now), "C09", checks) EXCEPT !.t9 = z9]
-      r11 == Flag(r10b, "C08" \in checks /\ o.fault = "" /\ ~C08Check(r10, o), "C08", checks)
+      (* C16: once the subscriber has seen its terminal, every producer feeding it retires: after one more      *)
+      (* period (all periods are 1 in the suite) has elapsed and the executor has run to idle no task is left, *)
+      (* and an iterator source has been pulled exactly as far as the item that ended the stream               *)
+      term1 == GetB(r10b.term, 1)
+      ts == IF m.tsince >= 0 THEN m.tsince ELSE IF term1 THEN r10b.now ELSE -1
+      r10c == [Flag(Flag(r10b, o.fault = "" /\ s.k = "runall" /\ m.tsince >= 0 /\ r10b.now >= m.tsince + 1 /\ o.live # 0, "C16", checks),
+                    o.fault = "" /\ term1 /\ PullSrc(r10b.hroot[1]) > 0 /\ o.cnt[CntPull] # MinPulls(r10b.hroot[1], 0), "C16", checks)
+               EXCEPT !.tsince = ts]
+      r11 == Flag(r10c, "C08" \in checks /\ o.fault = "" /\ ~C08Check(r10, o), "C08", checks)
   IN [r11 EXCEPT !.lastcnt = o.cnt, !.gt = Pad(@, Len(r11.g), m.now)]
 
 RECURSIVE MonRun(_, _, _)
